@@ -1483,20 +1483,39 @@ fn quiescence(sh: &Shared, n: usize, rw: bool, nlocks: usize, seed: u64, logging
     r.ok().map(|(log, ws)| (log, ws, tl_take()))
 }
 
+/// Single-threaded probe "is this mutex free?". A lock that was left held refuses every time; a
+/// try_lock that merely refuses now and then (nobody holds: that is its own violation) is reported
+/// as such and not blamed on the operation under test.
+fn mutex_free(m: &Mutex<Payload>) -> bool {
+    for i in 0..400 {
+        if let Some(g) = m.try_lock() {
+            drop(g);
+            if i > 0 {
+                viol(
+                    "try_lock/unjustified-failure",
+                    &format!("{{\"what\":\"single thread, no guard exists: try_lock refused {i} time(s), then succeeded\"}}"),
+                );
+            }
+            return true;
+        }
+    }
+    false
+}
+fn rwlock_free(l: &RwLock<Payload>) -> bool {
+    // refusals of try_write are not constrained by C02; only a lock that never opens is "held"
+    (0..400).any(|_| l.try_write().is_some())
+}
+
 /// Single-threaded: the mutex is free before; format it; it must be free afterwards.
 fn fmt_leaves_unlocked(m: &Mutex<Payload>, sink: Sink, phase: &str) -> bool {
-    match m.try_lock() {
-        Some(g) => drop(g),
-        None => return false, // not free to begin with: somebody else's fault, reported elsewhere
+    if !mutex_free(m) {
+        return false; // not free to begin with: somebody else's fault, reported elsewhere
     }
     let (ok, panicked, n) = run_fmt(sink, &|w| write!(w, "{m:?}"));
     OPS_DONE.fetch_add(1, Relaxed);
-    match m.try_lock() {
-        Some(g) => {
-            drop(g);
-            true
-        }
-        None => {
+    match mutex_free(m) {
+        true => true,
+        false => {
             viol(
                 "debug-fmt/lock-left-held",
                 &format!(
@@ -1524,7 +1543,7 @@ fn surface_battery(rw: bool) -> u64 {
     payload_write(&mut probe, stamp);
     if !rw {
         let mut m: Mutex<Payload> = Mutex::default();
-        if m.try_lock().is_none() {
+        if !mutex_free(&m) {
             viol("default/not-unlocked", "{\"what\":\"Mutex::default() cannot be locked\"}");
             return cases;
         }
@@ -1532,13 +1551,12 @@ fn surface_battery(rw: bool) -> u64 {
         let full = format!("{m:?}").len();
         sinks.extend((0..=full + 1).step_by(stride).map(Sink::Fixed));
         sinks.push(Sink::Fixed(full));
-        match m.try_lock() {
-            Some(g) => {
-                if payload_read(&g).0 != stamp {
-                    viol("get_mut/value-mismatch", "{\"what\":\"a value written through get_mut is not what the next guard sees\"}");
-                }
+        if mutex_free(&m) {
+            if payload_read(&m.lock()).0 != stamp {
+                viol("get_mut/value-mismatch", "{\"what\":\"a value written through get_mut is not what the next guard sees\"}");
             }
-            None => viol("get_mut/lock-left-held", "{\"what\":\"try_lock fails after get_mut on a fresh mutex\"}"),
+        } else {
+            viol("get_mut/lock-left-held", "{\"what\":\"try_lock fails after get_mut on a fresh mutex\"}");
         }
         for &sink in &sinks {
             cases += 3;
@@ -1560,7 +1578,7 @@ fn surface_battery(rw: bool) -> u64 {
                 return cases;
             }
             drop(g);
-            if m.try_lock().is_none() {
+            if !mutex_free(&m) {
                 viol("debug-fmt/lock-left-held", &format!("{{\"what\":\"after the holder formatted mutex and guard and dropped the guard\",\"sink\":{}}}", vh::js(&format!("{sink:?}"))));
                 return cases;
             }
@@ -1581,7 +1599,7 @@ fn surface_battery(rw: bool) -> u64 {
             drop(g);
             cases += 1;
         }
-        if m.try_lock().is_none() {
+        if !mutex_free(&m) {
             viol("debug-fmt/lock-left-held", "{\"what\":\"end of the formatting battery\"}");
             return cases;
         }
@@ -1595,13 +1613,12 @@ fn surface_battery(rw: bool) -> u64 {
         payload_write(l.get_mut(), stamp);
         let full = format!("{probe:?}").len();
         sinks.extend((0..=full + 1).step_by(stride).map(Sink::Fixed));
-        match l.try_write() {
-            Some(g) => {
-                if payload_read(&g).0 != stamp {
-                    viol("get_mut/value-mismatch", "{\"what\":\"a value written through get_mut is not what the next guard sees\"}");
-                }
+        if rwlock_free(&l) {
+            if payload_read(&l.read()).0 != stamp {
+                viol("get_mut/value-mismatch", "{\"what\":\"a value written through get_mut is not what the next guard sees\"}");
             }
-            None => viol("get_mut/lock-left-held", "{\"what\":\"try_write fails after get_mut on a fresh lock\"}"),
+        } else {
+            viol("get_mut/lock-left-held", "{\"what\":\"try_write never succeeds after get_mut on a fresh lock\"}");
         }
         for &sink in &sinks {
             for display in [false, true] {
@@ -1610,7 +1627,7 @@ fn surface_battery(rw: bool) -> u64 {
                 let _ = run_fmt(sink, &|w| if display { write!(w, "{g}") } else { write!(w, "{g:?}") });
                 // still read-locked by exactly this guard: no writer admitted, another reader is
                 let w_ok = l.try_write().is_some();
-                let r_ok = l.try_read().is_some();
+                let r_ok = (0..400).any(|_| l.try_read().is_some()); // a refusal is not constrained, "never" is
                 if w_ok || !r_ok || payload_read(&g).0 != stamp {
                     viol("guard-fmt/lock-state-changed", &format!("{{\"guard\":\"RwLockReadGuard\",\"display\":{display},\"sink\":{},\"try_write_admitted\":{w_ok},\"try_read_admitted\":{r_ok}}}", vh::js(&format!("{sink:?}"))));
                     return cases;
@@ -1625,7 +1642,7 @@ fn surface_battery(rw: bool) -> u64 {
                     return cases;
                 }
                 drop(g);
-                if l.try_write().is_none() {
+                if !rwlock_free(&l) {
                     viol("guard-fmt/lock-left-held", &format!("{{\"display\":{display},\"sink\":{}}}", vh::js(&format!("{sink:?}"))));
                     return cases;
                 }
@@ -1650,7 +1667,7 @@ fn owner_view(sh: Arc<Shared>, rw: bool, nlocks: usize, ctx: &dyn fmt::Display) 
         let last = rd64(&MON_LAST[l]);
         let mon = rd64(&MON_CNT[l]);
         let (s, c, ok) = if rw { payload_read(sh.rw[l].get_mut()) } else { payload_read(sh.m[l].get_mut()) };
-        let free = if rw { sh.rw[l].try_write().is_some() } else { sh.m[l].try_lock().is_some() };
+        let free = if rw { rwlock_free(&sh.rw[l]) } else { mutex_free(&sh.m[l]) };
         if s != last || c != mon || !ok {
             viol("get_mut/value-mismatch", &format!("{{\"lock\":{l},\"stamp\":{s},\"last_writer_stamp\":{last},\"count\":{c},\"exclusive_sections\":{mon},\"run\":{ctx}}}"));
         }
